@@ -17,6 +17,49 @@ POPS = {
 }
 
 
+def _dynamic(tier):
+    """The population changes between discoveries (a light vanishes and ages out, another moves): loops over
+    groups, locations and lights must follow the directory as it is when the script runs."""
+    from ..lang import gen_loops, harness
+    from bardolph.controller import light as light_mod
+
+    class VT:
+        now = 5000.0
+
+        def time(self):
+            return VT.now
+    viol = {}
+    n = 0
+    histories = [
+        ((D('x', 'solo', 'here'), D('y', 'g', 'p')), ('x',), ()),                  # the only member of a group expires
+        ((D('a', 'g', 'p'), D('b', 'g', 'q'), D('c', 'h', 'q')), ('c',), ()),
+        ((D('a', 'g', 'p'), D('b', 'g', 'q'), D('c', 'h', 'q')), (), (('b', 'h', 'p'),)),   # a light moves
+        ((D('a', 'g', 'p'), D('b', 'h', 'q')), ('a', 'b'), ()),                     # everything expires
+    ]
+    for pop, vanish, moves in histories:
+        light_mod.time = VT()
+        VT.now = 5000.0
+        w = world.World(pop, overrides={'light_gc_time': 100})
+        w.devices[:] = [d for d in w.devices if d.label not in vanish]
+        for label, g, loc in moves:
+            w.by_label[label].group, w.by_label[label].location = g, loc
+        from .. import simnet
+        simnet.SimLan.current_devices = w.devices
+        VT.now += 150
+        w.light_set.refresh()
+        now_pop = tuple(D(d.label, d.group, d.location) for d in w.devices)
+        w.population = now_pop
+        specs = gen_loops.light_specs(now_pop, '0')
+        for tag, pre, spec, vs in specs:
+            prog = pre + (('repeat', spec, tuple(('print', ('var', v)) for v in vs)), ('print', ('num', 99)))
+            n += 1
+            o = harness.run_ast(w, prog)
+            if o.status not in ('ok', 'undefined'):
+                kind = 'after-expiry-or-move:' + progcheck.default_classify(o)
+                viol.setdefault(kind, [0, o.text, repr(o.detail), pop])[0] += 1
+    return n, viol
+
+
 def run(tier, seed):
     rep = Report()
     acc = progcheck.Accum()
@@ -28,6 +71,11 @@ def run(tier, seed):
                     'interpolation and cycle grids; all/group/location/in-lists with from/cycle) x break none/unconditional/'
                     'second-pass x in-routine; cycle in each unit mode; nested pairs over a reduced spec set x 5 break '
                     'placements; on populations of 0,1,2,4 lights')
+    n_dyn, dviol = _dynamic(tier)
+    for kind, (cnt, text, detail, pop) in sorted(dviol.items()):
+        rep.violation(kind, '%s (%d programs), population at first discovery %r: `%s` -> %s' % (kind, cnt, [tuple(d)[:3] for d in pop], text, detail),
+                      {'script': text, 'population': [list(d) for d in pop], 'detail': detail, 'part': 'dynamic'})
+    rep.coverage['dynamic_population_programs'] = n_dyn
     return rep
 
 
